@@ -286,28 +286,29 @@ def sanitizeUtf8 : Bytes → Bytes
     let cont (b : UInt8) (lo hi : UInt8) : Bool := lo ≤ b && b ≤ hi
     if b0 < 0x80 then b0 :: sanitizeUtf8 rest
     else
-      let bad := 0xEF :: 0xBF :: 0xBD :: sanitizeUtf8 rest
+      -- a thunk: evaluated eagerly it would double the work at every non-ASCII byte (exponential in their number)
+      let bad := fun (_ : Unit) => 0xEF :: 0xBF :: 0xBD :: sanitizeUtf8 rest
       match rest with
       | b1 :: r1 =>
         if 0xC2 ≤ b0 && b0 ≤ 0xDF then
-          if cont b1 0x80 0xBF then b0 :: b1 :: sanitizeUtf8 r1 else bad
+          if cont b1 0x80 0xBF then b0 :: b1 :: sanitizeUtf8 r1 else bad ()
         else
           let lo1 : UInt8 := if b0 = 0xE0 then 0xA0 else if b0 = 0xF0 then 0x90 else 0x80
           let hi1 : UInt8 := if b0 = 0xED then 0x9F else if b0 = 0xF4 then 0x8F else 0xBF
           if 0xE0 ≤ b0 && b0 ≤ 0xEF then
             match r1 with
             | b2 :: r2 =>
-              if cont b1 lo1 hi1 && cont b2 0x80 0xBF then b0 :: b1 :: b2 :: sanitizeUtf8 r2 else bad
-            | [] => bad
+              if cont b1 lo1 hi1 && cont b2 0x80 0xBF then b0 :: b1 :: b2 :: sanitizeUtf8 r2 else bad ()
+            | [] => bad ()
           else if 0xF0 ≤ b0 && b0 ≤ 0xF4 then
             match r1 with
             | b2 :: b3 :: r3 =>
               if cont b1 lo1 hi1 && cont b2 0x80 0xBF && cont b3 0x80 0xBF then
                 b0 :: b1 :: b2 :: b3 :: sanitizeUtf8 r3
-              else bad
-            | _ => bad
-          else bad
-      | [] => bad
+              else bad ()
+            | _ => bad ()
+          else bad ()
+      | [] => bad ()
 termination_by l => l.length
 decreasing_by all_goals simp_wf; all_goals omega
 
